@@ -1,4 +1,5 @@
 // Public-API operations (database / crate / track), observation and raw dumps.
+#include <cfenv>
 #include <atomic>
 #include <thread>
 #include <sqlite3.h>
@@ -1694,6 +1695,17 @@ bool dispatch_api(State& st, const std::string& op, const json& a, json& ret)
     if (op == "extents")
     {
         // items: [[count, rate_dhex], ...] -> [[hsize, hspe, osize, ospe], ...]
+        // "fpround": the calling thread's floating-point rounding mode while the functions run (a DSP host or an interval-arithmetic
+        // library may have left it at something other than round-to-nearest)
+        struct RoundGuard
+        {
+            int old = fegetround();
+            ~RoundGuard() { fesetround(old); }
+        } round_guard;
+        std::string fr = a.value("fpround", std::string());
+        if (fr == "down") fesetround(FE_DOWNWARD);
+        else if (fr == "up") fesetround(FE_UPWARD);
+        else if (fr == "zero") fesetround(FE_TOWARDZERO);
         json out = json::array();
         for (auto& it : a.at("items"))
         {
